@@ -254,10 +254,11 @@ class _HalfRankUnwarper:
     # Try looking up the value
     # Use searchsorted and pull out three numbers.
     idx = np.searchsorted(self._warped_labels, label)
+    first_candidate = max(0, idx - 1)
     candidates = self._warped_labels[
-        max(0, idx - 1) : min(len(self._warped_labels), idx + 1)
+        first_candidate : min(len(self._warped_labels), idx + 1)
     ]
-    best_idx = np.argmin(np.abs(candidates - label))
+    best_idx = first_candidate + np.argmin(np.abs(candidates - label))
     if np.isclose(self._warped_labels[best_idx], label):
       return self._original_labels[best_idx]
 
